@@ -123,6 +123,9 @@ func Newf(format string, v ...any) *Error {
 
 // NewWithCause creates a new detailed error with the 'message' and underlying 'cause'.
 func NewWithCause(message string, cause error) *Error {
+	if isNil(cause) {
+		cause = nil // A typed nil is not a cause and cannot be rendered
+	}
 	return &Error{
 		message: message,
 		stack:   callStack(),
